@@ -213,7 +213,7 @@ def oracle(case):
         w = wref(L, cfg["psll"])
         Sx = tol.seg_scale(x, D, L, w, cfg["order"])
         Sy = Sx if y is None else tol.seg_scale(y, D, L, w, cfg["order"])
-        buds = {"XX": tol.budget2(L, om, Sx), "YY": tol.budget2(L, om, Sy), "XY": tol.budget2(L, om, (Sx * Sy) ** 0.5),
+        buds = {"XX": tol.budget2(L, om, Sx), "YY": tol.budget2(L, om, Sy), "XY": tol.budget2(L, om, (Sx ** 0.5 * Sy ** 0.5)),
                 "M2": tol.budget4(L, om, Sx, Sy)}
         for k, bud in buds.items():
             a, b = getattr(res, k)[j], getattr(ref, k)[j]
